@@ -101,6 +101,11 @@ def direction_rules(ctx):
     it = spec_interp(p)
     me = spectrum_self(p, CLS_2D)
     g = lambda name: (it.get_attr(me, name, None), p.get_method(CLS_2D, name))  # noqa: E731
+    # weights / widths / angles remembered at module level across spectra must be keyed on the grid itself, not on its length or
+    # spacing (two grids with the same number of bins and the same width still differ in their origin)
+    from ..statecache import module_memo_rule as _mmemo, positive_module_example as _mmemo_pos
+    _mmemo(ctx, "R02.3", [p.modules["wavespectra.spectrum"]], "spectrum module")
+    _mmemo_pos(ctx, "R02.3")
 
     # R02.2 direction_step
     r, f = g("direction_step")
